@@ -451,9 +451,9 @@ pub fn run_c14(a: &Args) {
         out.set_header(vec![zone_event(&az, &z.class)]);
         let pts = change_points(a, &az, &mut rng);
         for (pi, &(t, cls)) in pts.iter().enumerate() {
-            // the thorough tier: recorded transitions with all seven offsets, every twelfth rule point with
+            // the thorough tier: recorded transitions with all seven offsets, every twenty-fourth rule point with
             // three (an iterator event costs TLC 6 to 40 ms; all points x all offsets was 32 million events)
-            if !a.quick() && cls.starts_with("rule") && pi % 12 != 0 {
+            if !a.quick() && cls.starts_with("rule") && pi % 24 != 0 {
                 continue;
             }
             // ... and at most about 80 of the recorded transitions of a zone (the last 30 and a spread of the others)
